@@ -17,25 +17,40 @@ MANIFEST = dict(
         "potrf_correct (returns 0 => L L^T = A on the stored triangle, other triangle untouched), potrf_upper_correct, potrf_info_spec "
         "(returns k+1 => first k pivots positive, Schur pivot k <= 0); getrf_correct (no exception => P A = L U for the recorded "
         "transposition sequence); solve_eq_of_factorisation and its instance solve_spd_correct (solve(A,b,symm_pos_def) returns x with "
-        "A x = b), solve_spd_unique, solve_lu_correct (solve(A,b,indefinite_full_rank,left) returns x with A x = b); inv_prod_is_solve / inv_prod_is_solve_spd (explicit inverse times b = the solve call). The square "
-        "root is a parameter r required to be exact on the pivots that occur (SqrtSpec). The model is tied to remora's default kernels "
+        "A x = b), solve_spd_unique, solve_lu_correct (solve(A,b,indefinite_full_rank,left) returns x with A x = b); inv_prod_is_solve / inv_prod_is_solve_spd (explicit inverse times b = the solve call); "
+        "cholUpdate_correct (rank-one update of a Cholesky factor, model updStep/cholUpdate written statement by statement after cholesky_decomposition::update: "
+        "for every size, every lower factor with non-zero diagonal, every update vector incl. zero components anywhere, every beta != 0 and alpha with an exact root: "
+        "no exception => L' L'^T = alpha L L^T + beta v v^T) and cholUpdate_scale_correct (beta = 0); the expression rewrites of solve.hpp: row_of_left_solve / "
+        "lazy_row_left_trsm (row(solve(A,B,left),i) = B^T solve(A,e_i,right)), row_of_left_solve_wrong_side_witness (the side matters), prod_of_right_solve, prod_of_left_trsm. The square "
+        "root is a parameter r required to be exact on the values that occur (SqrtSpec; hroot for the update). The model is tied to remora's default kernels "
         "by an exact correspondence (driver drv_c02 in Rat vs C++ doubles printed exactly) on systems built from integer factors with "
         "power-of-two diagonals, sizes 1..70 across the block sizes 4/16/20/32/64, both orientations, left/right, vector/matrix "
-        "right-hand sides, all tags, rank deficiencies 0..n for pstrf: whenever FE_INEXACT stays clear the C++ result must equal the "
+        "right-hand sides (incl. zero / sparse ones), all tags, rank deficiencies 0..n for pstrf: whenever FE_INEXACT stays clear the C++ result must equal the "
         "model's; otherwise, and for the OpenBLAS-backed build (-DREMORA_USE_CBLAS via Shark.h), an in-harness residual oracle in long "
-        "double (|A x - b| <= 1e-9 (|A||x|+|b|), L L^T, P A = L U, P^T A P = L L^T, Q D Q^T, Q^T Q = I, normal equations) decides."),
-  note=TRUST + "PARTIAL. Proved only on the model: everything listed in `text`. potrf_strict_correct_partial needs 'no pivot is exactly zero' "
-       "(the unrepaired (row_major,upper) kernel accepts a zero pivot: finding C02-potrf-zero-pivot-accepted). NOT theorems, exercised by the "
+        "double (|A x - b| <= 1e-9 (|A||x|+|b|), L L^T, P A = L U, P^T A P = L L^T, Q D Q^T, Q^T Q = I, normal equations; NaN anywhere fails) decides. "
+        "Exercised on every run (quick tier too): every way the solve expression is written and consumed -- solve(), inv(A)%B / B%inv(A), noalias(x) += ... "
+        "(plus_assign_to), the explicit inverse evaluated as a matrix (matrix_inverse::assign_to / plus_assign_to, then a plain product), operands that are expressions (trans(At), trans(Bt), subrange), and the lazily consumed matrix solves row(expr,i), expr % e_k, expr % I "
+        "(matrix_row_optimizer / matrix_vector_prod_optimizer) -- for each of the 7 direct system tags x left/right (plus conjugate gradient), all compared with the one model X; "
+        "decomposition objects used directly and re-used (one cholesky / LU / semi-definite / eigen decomposition serving 2..5 solves of mixed side and rhs kind, "
+        "decompose() on a used object; compute_inverse_factor of the semi-definite solver, modelled (semiInverseFactor) and compared exactly, Moore-Penrose oracle A A^+ A = A); pivoted LU with ties in the pivot search; sequences of 1..5 rank-one updates on one cholesky_decomposition followed by a solve through it, update vectors drawn from the "
+        "classes dense / leading zeros / unit vector / trailing zeros / interior zeros / zero vector / scaled factor column / exactly singular result / indefinite "
+        "downdate (the last two must throw) x alpha = 1 / alpha != 1, exact and float; symmetric eigenproblems incl. repeated eigenvalues, diagonal, zero, identity, "
+        "rank-one and tridiagonal matrices."),
+  note=TRUST + "PARTIAL. Proved only on the model: everything listed in `text` as theorem. potrf_strict_correct_partial needs 'no pivot is exactly zero' "
+       "(the unrepaired (row_major,upper) kernel accepts a zero pivot: finding C02-potrf-zero-pivot-accepted, fixed in /repo). NOT theorems, exercised by the "
        "correspondence / residual oracle only: pivoted Cholesky pstrf and the semi-definite solver incl. the least-squares clause (modelled and "
        "compared exactly, nothing proved), the right-hand-side / matrix-rhs forms of the LU- and Cholesky-based solves (left vector forms are proved), "
-       "rank-one Cholesky update, conjugate gradient, symmetric eigendecomposition (oracle only, no model), the blocked recursions "
+       "the rewrites row/prod for the non-triangular tags (the general lemmas row_of_left_solve / prod_of_right_solve take the defining equations as hypotheses), "
+       "that update() throws exactly when the updated matrix is not positive definite (INDEPENDENT ORACLE in the harness: long-double Cholesky of the separately accumulated target, undecided within 1e-6 of singular), "
+       "conjugate gradient, symmetric eigendecomposition (INDEPENDENT ORACLE only, no model), the blocked recursions "
        "(modelled as the unblocked loops; equality in exact arithmetic follows from trsv_unique for trsm and is otherwise established by the "
        "exact correspondence across the block boundaries), floating-point backward-error bounds ('residual at rounding level' is measured, not proved). "
-       "The model describes the tree with findings_proposed/C02.patch applied (pstrf stops at pivot <= epsilon; both potrf kernels reject pivot <= 0; "
-       "potrf return code is global): on the unpatched tree the check reports C02-pstrf-zero-matrix, C02-potrf-zero-pivot-accepted, "
-       "C02-potrf-info-relative-to-block.",
-  technique="Lean 4 proofs (course-of-values recurrences, elimination invariants by induction over the steps) + exact-mode differential correspondence with the C++ (ASan/UBSan, FE_INEXACT) + residual oracle",
-  design="§6 C02")
+       "The forms that go through the explicit inverse (row(expr,i), evaluated inv(A)) are only forward stable; they are generated on well-conditioned systems "
+       "(dominant power-of-two diagonal / float systems with bounded condition) so that the 1e-9 residual bound is sound. trans(solve(..)), column(solve(..),i), v % solve(..), row(inv(A),i) "
+       "do not compile in the pinned tree (findings_proposed/C02.md) and are not exercised. "
+       "Open known finding C02-cg-zero-rhs-nan (F-C02-4): conjugate gradient with a zero vector right-hand side returns NaN; the check prints KNOWN-FINDING for exactly that input class.",
+  technique="Lean 4 proofs (course-of-values recurrences, elimination invariants by induction over the steps, loop invariant of the rank-one update) + exact-mode differential correspondence with the C++ (ASan/UBSan, FE_INEXACT) + independent residual oracles",
+  design="§6 C02, §14 C02")
 FINISH = dict(level="proof",
               rule="one case = one kernel / decomposition / solve call on a generated system; exact cases are built from integer "
                    "factors with power-of-two diagonals (every sqrt and division exact); a case is non-trivial if n >= 2; "
@@ -254,14 +269,22 @@ def gen_lu_matrix(r, n):
     return perm_rows(A4, rand_perm(r, n)), 2
 
 
-def gen_getrf(r, n, singular=False):
+def gen_lu_ties(r, n):
+    """A = Pi^T L U with multipliers in {0, +-1}: the pivot search meets ties (equal absolute values) in the
+    first column at least; non-singular by construction (det = prod U_ii)"""
+    L = [[1 if i == j else (r.choice([0, 1, -1]) if j < i else 0) for j in range(n)] for i in range(n)]
+    U = [[r.choice([1, -1]) * (1 << r.range(0, 3)) if i == j else (small(r, 3, 2) if j > i else 0) for j in range(n)] for i in range(n)]
+    return perm_rows(mm(L, U), rand_perm(r, n)), 0
+
+
+def gen_getrf(r, n, singular=False, ties=False):
     oa = r.choice("rc")
-    A, s = gen_lu_matrix(r, n)
+    A, s = gen_lu_ties(r, n) if ties else gen_lu_matrix(r, n)
     if singular and n > 0:
         k = r.below(n)
         for i in range(n): A[i][k] = 0
     line = f"getrf {oa} {n} {emit(A, s)}"
-    return dict(op=line, kind="exact", n=n, name="getrf", cfg=oa + ("-singular" if singular else ""))
+    return dict(op=line, kind="exact", n=n, name="getrf", cfg=oa + ("-singular" if singular else "") + ("-ties" if ties else ""))
 
 
 def pstrf_matrix(r, n, rank):
@@ -385,7 +408,7 @@ def float_tri(r, n, upper, unit, bits=8):
     return A, bits
 
 
-FORMS_ANY = "siabe"          # every right-hand side kind
+FORMS_ANY = "siabexy"        # every right-hand side kind (x, y: explicit inverse evaluated as a matrix)
 FORMS_MAT = "rjpqmn"         # lazily consumed matrix solves: matrix right-hand sides only
 TAGS = ["spd", "semi", "lu", "tl", "tu", "tul", "tuu"]
 
@@ -399,7 +422,7 @@ def gen_solve(r, n, tag=None, tol=False, form=None, left=None, K=None):
     if form is None:
         form = r.choice("ssii" + FORMS_ANY) if K == "v" else r.choice("ssii" + FORMS_ANY + FORMS_MAT + FORMS_MAT)
     m = 1 if K == "v" else r.choice([1, 2, 3, 5, 17])
-    wc = form in "rj"
+    wc = form in "rjxy"       # forms that go through the explicit inverse: forward stable only
     s = 0
     extra = ""
     if tag == "spd":
@@ -450,10 +473,10 @@ def gen_solve(r, n, tag=None, tol=False, form=None, left=None, K=None):
 
 def gen_decomp(r, n, tol=False):
     """one decomposition object serving several solve requests (all four side / rhs-kind combinations in random order)"""
-    cls = r.choice(["chol", "chold", "lu", "semi", "semi"] + (["eig"] if tol else []))
+    cls = r.choice(["chol", "chold", "lu", "semi", "semi"] + (["eig", "eigd"] if tol else []))
     oa = r.choice("rc")
     s = 0
-    if cls in ("chol", "chold", "eig"):
+    if cls in ("chol", "chold", "eig", "eigd"):
         if tol:
             A, s = float_spd(r, n)
         else:
@@ -468,7 +491,7 @@ def gen_decomp(r, n, tol=False):
         else:
             rank = r.choice([n, r.range(0, n), max(0, n - 1)]); A = pstrf_matrix(r, n, rank)
     q = r.range(2, 5)
-    Asym = [[A[i][j] if j <= i else A[j][i] for j in range(n)] for i in range(n)] if cls in ("chol", "chold", "eig") else A
+    Asym = [[A[i][j] if j <= i else A[j][i] for j in range(n)] for i in range(n)] if cls in ("chol", "chold", "eig", "eigd") else A
     reqs = []
     for _ in range(q):
         left = r.chance(1, 2); K = r.choice("vrc"); m = 1 if K == "v" else r.choice([1, 2, 3, 5])
@@ -643,6 +666,8 @@ def gen_cases(ctx):
             cases.append(gen_potrf_float(r, n))
     for n in sizes(ctx, r, 8 if q else 0):
         cases.append(gen_getrf(r, n, singular=r.chance(1, 15)))
+    for n in ([2, 3, 4, 5, 7, 9, 12] if q else list(range(2, 13)) * 3):
+        cases.append(gen_getrf(r, n, ties=True))
     for n in sizes(ctx, r, 8 if q else 0):
         cases.append(gen_pstrf(r, n))
         if not q:
